@@ -170,7 +170,7 @@ def occupy(rng, steps, made, pool, share=0.35):
 
 MALFORMED = ['nonsuffix', 'empty', 'truncated', 'binary', 'nonutf8', 'nopath', 'nodate', 'baddate',
              'nopayload', 'orphan', 'dir_in_info', 'infodir_named_trashinfo', 'only_header', 'crlf', 'offsetdate', 'pctnonutf8', 'pctcontrol',
-             'info_dangling_link', 'info_loop_link', 'info_link_to_dir', 'stray_dangling_link', 'orphan_longname', 'nopayload_longname', 'info_named_by_dots']
+             'info_dangling_link', 'info_loop_link', 'info_link_to_dir', 'stray_dangling_link', 'orphan_longname', 'nopayload_longname', 'info_named_by_dots', 'farfuture_nopath']
 
 
 def add_malformed(rng, steps, tdir, kind, tag, path_value=None):
@@ -198,6 +198,11 @@ def add_malformed(rng, steps, tdir, kind, tag, path_value=None):
     elif kind == 'nopath':
         steps.append(['f', ip, '[Trash Info]\nDeletionDate=2020-01-01T00:00:00\n', 0o600])
         steps.append(['f', fp, 'p', 0o644])
+    elif kind == 'farfuture_nopath':
+        # no Path, and the 'never' date some tools write: the last second of year 9999 (any arithmetic on it overflows)
+        steps.append(['f', ip, '[Trash Info]\nDeletionDate=%s\n' % rng.choice(['9999-12-31T23:59:59', '9999-12-31T23:59:59', '9999-12-20T00:00:00']), 0o600])
+        if rng.random() < 0.5:
+            steps.append(['f', fp, 'p', 0o644])
     elif kind == 'nodate':
         steps.append(['f', ip, '[Trash Info]\nPath=%s\n' % (path_value or '/home/u/w/' + nm), 0o600])
         steps.append(['f', fp, 'p', 0o644])
